@@ -1,4 +1,4 @@
-import Proofs.SubmitPending
+import Proofs.SubmitReach
 
 /-!
 # C08 — the pending-submission limit throttles but never deadlocks block production
@@ -27,21 +27,55 @@ theorem refused_step_is_noop (c : Cfg) (n : Node) (r : SeqResp) (e : ExecResp) (
     publish c n r e = (n, [], .refused) := by
   unfold publish; rw [if_pos h]
 
-/-- **What the header counter counts** (with the soundness of the watermark, C06).  Along every interleaving of
-production, header submission, data submission (any DA answers) and inclusion, from a fresh start of a chain with
-initial height 1: the header watermark is at most the chain height, and every height `1 ≤ h ≤ hdrWm` is a stored block
-whose header blob the DA double holds.  Hence `height − hdrWm` is exactly the number of committed heights
-`(hdrWm, height]` whose header the DA layer has not yet acknowledged — and when production is refused, that number, or
-the corresponding data counter, has reached the limit. -/
-theorem C08_refusal_counts_unacknowledged (c : Cfg) (h1 : c.initialHeight = 1) (acts : List Act) :
-    let a := runA c { n := freshNode c } acts
-    a.n.hdrWm ≤ a.n.store.height ∧
-    (∀ h, 1 ≤ h → h ≤ a.n.hdrWm → ∃ b dh, a.n.store.getBlock h = some b ∧ b.sh.hdr.height = h ∧
+/-- **What the counters count** (with the soundness of the watermark, C06), **for every initial height ≥ 1**.  Along
+every interleaving of production, header submission, data submission (any DA answers), inclusion passes and restarts
+(clean, or a crash between two actions) from a fresh start: both watermarks lie in `[initialHeight − 1, chain height]`
+(`NewManager` starts them at `initialHeight − 1`: heights below the initial height do not exist and are not counted);
+every committed height `initialHeight ≤ h ≤ hdrWm` is a stored block whose header blob the DA double holds; and every
+height of `(hdrWm, height]` is a committed block.  Hence `height − hdrWm` is exactly the number of committed headers the
+DA layer has not yet acknowledged, it is at most the number `height − (initialHeight − 1)` of committed blocks — and
+when production is refused, that number, or the corresponding data counter, has reached the limit.
+(Until /repo 6924f89 the counters of a chain with initial height `I > 1` started at `I − 1` "pending" blocks that do not
+exist — finding `C08/refuses/initial-height-counted-as-pending`, fixed — and this theorem needed `initialHeight = 1`.) -/
+theorem C08_refusal_counts_unacknowledged (c : Cfg) (h1 : 1 ≤ c.initialHeight) (acts : List ActR) :
+    let a := runR c { n := freshNode c } acts
+    (c.initialHeight - 1 ≤ a.n.hdrWm ∧ a.n.hdrWm ≤ a.n.store.height) ∧
+    (c.initialHeight - 1 ≤ a.n.dataWm ∧ a.n.dataWm ≤ a.n.store.height) ∧
+    (∀ h, c.initialHeight ≤ h → h ≤ a.n.hdrWm → ∃ b dh, a.n.store.getBlock h = some b ∧ b.sh.hdr.height = h ∧
       (dh, false, h) ∈ a.daBlobs) ∧
+    (∀ h, a.n.hdrWm < h → h ≤ a.n.store.height →
+      c.initialHeight ≤ h ∧ ∃ b, a.n.store.getBlock h = some b ∧ b.sh.hdr.height = h) ∧
+    (a.n.store.height - a.n.hdrWm ≤ a.n.store.height - (c.initialHeight - 1) ∧
+     a.n.store.height - a.n.dataWm ≤ a.n.store.height - (c.initialHeight - 1)) ∧
     (pendingRefuses c a.n = true → c.maxPending ≠ 0 ∧
       (a.n.store.height - a.n.hdrWm ≥ c.maxPending ∨ a.n.store.height - a.n.dataWm ≥ c.maxPending)) := by
-  have w := (W_fresh c h1).run acts
-  exact ⟨w.le, fun h ha hb => w.acc h (by omega) hb, refusal_needs_limit c _⟩
+  intro a
+  have r : R c a := (R_fresh c h1).run acts
+  have l1 := r.low
+  have l2 := r.dlow
+  have hok := hdrOK_of_inv r.pinv r.low
+  exact ⟨⟨by omega, r.le⟩, ⟨by omega, r.dle⟩, r.acc, fun h k1 k2 => ⟨by omega, hok h k1 k2⟩, ⟨by omega, by omega⟩,
+    refusal_needs_limit c _⟩
+
+/-- in particular **a freshly started node is never refused for blocks that do not exist**: with any limit ≥ 1 and any
+initial height ≥ 1 both counters are 0 at start-up (they were `initialHeight − 1` before the repair) -/
+theorem C08_fresh_node_not_refused (c : Cfg) (h1 : 1 ≤ c.initialHeight) :
+    (freshNode c).store.height - (freshNode c).hdrWm = 0 ∧ (freshNode c).store.height - (freshNode c).dataWm = 0 ∧
+    pendingRefuses c (freshNode c) = false := by
+  have w := W_fresh c h1
+  obtain ⟨hh, _⟩ := freshDisk_facts c
+  have hh' : (freshNode c).store.height = c.initialHeight - 1 := hh
+  have q1 : c.initialHeight ≤ (freshNode c).hdrWm + 1 := w.low
+  have q2 : c.initialHeight ≤ (freshNode c).dataWm + 1 := w.dlow
+  have e1 : (freshNode c).store.height - (freshNode c).hdrWm = 0 := by omega
+  have e2 : (freshNode c).store.height - (freshNode c).dataWm = 0 := by omega
+  refine ⟨e1, e2, ?_⟩
+  unfold pendingRefuses
+  by_cases hm : c.maxPending = 0
+  · simp [hm]
+  · rw [e1, e2]
+    have : ¬ (0 ≥ c.maxPending) := by omega
+    simp [this]
 
 /-! ## liveness, header half -/
 
@@ -60,7 +94,7 @@ theorem C08_header_counter_clears (a : ANode) (fails tail : List DAAns)
 /-- full statement: with a DA layer that accepts, after one header iteration and one data iteration production is not
 refused — for every chain, in particular an idle one that produces only empty blocks -/
 def C08_data_full : Prop :=
-  ∀ (c : Cfg) (rs : List (SeqResp × ExecResp)), c.initialHeight = 1 →
+  ∀ (c : Cfg) (rs : List (SeqResp × ExecResp)), 1 ≤ c.initialHeight →
     pendingRefuses c (runOps { n := run c (freshNode c) rs } [.subH [], .subD []]).n = false
 
 def zCfg : Cfg := { chainId := "w", initialHeight := 1, genesisTime := 100, proposerAddr := [1], key := 1,
@@ -99,7 +133,7 @@ theorem C08_idle_chain_deadlocks (acts : List Act) :
 /-- **The full statement is false of the current code.** -/
 theorem C08_data_full_fails : ¬ C08_data_full := by
   intro h
-  have h1 : pendingRefuses zCfg zNode.n = false := h zCfg zRun rfl
+  have h1 : pendingRefuses zCfg zNode.n = false := h zCfg zRun (by decide)
   rw [zNode_facts.2.2.2.1] at h1
   cases h1
 
